@@ -351,7 +351,7 @@ namespace bluetoe
                             used_buffer_  = 0;
                             in_flash_mode = true;
 
-                            if ( !MemRegions::acceptable( start_address, start_address ) )
+                            if ( !page_acceptable( start_address ) )
                                 return request_error( bluetoe::error_codes::invalid_offset );
 
                             for ( auto& buffer : buffers_ )
@@ -499,8 +499,13 @@ namespace bluetoe
                     if ( write_size == 0 )
                         return bluetoe::error_codes::success;
 
-                    if ( buffers_[ next_buffer_ ].free_size() == 0 && !find_next_buffer( start_address ) )
-                        return buffer_overrun_attempt;
+                    if ( buffers_[ next_buffer_ ].free_size() == 0 )
+                    {
+                        const std::uint8_t rc = find_next_buffer( start_address );
+
+                        if ( rc != bluetoe::error_codes::success )
+                            return rc;
+                    }
 
                     while ( write_size )
                     {
@@ -510,8 +515,13 @@ namespace bluetoe
                         write_size      -= moved;
                         start_address   += moved;
 
-                        if ( write_size && !find_next_buffer( start_address ) )
-                            return buffer_overrun_attempt;
+                        if ( write_size )
+                        {
+                            const std::uint8_t rc = find_next_buffer( start_address );
+
+                            if ( rc != bluetoe::error_codes::success )
+                                return rc;
+                        }
                     }
 
                     return bluetoe::error_codes::success;
@@ -595,20 +605,33 @@ namespace bluetoe
                     return result;
                 }
 
-                bool find_next_buffer( std::size_t start_address )
+                /*
+                 * a page is read back and flashed as a whole, so the whole page that contains the given address
+                 * has to be within one of the white listed memory regions.
+                 */
+                static bool page_acceptable( std::uintptr_t address )
                 {
+                    const std::uintptr_t page_start = address - address % PageSize;
+                    const std::uintptr_t page_end   = page_start + PageSize;
+
+                    return page_end > page_start && MemRegions::acceptable( page_start, page_end );
+                }
+
+                std::uint8_t find_next_buffer( std::uintptr_t start_address )
+                {
+                    if ( !page_acceptable( start_address ) )
+                        return bluetoe::error_codes::invalid_offset;
+
                     const auto next = ( next_buffer_ + 1 ) % number_of_concurrent_flashs;
 
-                    if ( buffers_[ next ].empty() )
-                    {
-                        ++consecutive_;
-                        buffers_[ next ].set_start_address( start_address, *this, buffers_[ next_buffer_ ].crc(), consecutive_ );
-                        next_buffer_ = next;
+                    if ( !buffers_[ next ].empty() )
+                        return buffer_overrun_attempt;
 
-                        return true;
-                    }
+                    ++consecutive_;
+                    buffers_[ next ].set_start_address( start_address, *this, buffers_[ next_buffer_ ].crc(), consecutive_ );
+                    next_buffer_ = next;
 
-                    return false;
+                    return bluetoe::error_codes::success;
                 }
 
                 std::pair< std::uint8_t, bool > request_error( std::uint8_t code )
